@@ -336,6 +336,24 @@ func (w *world) run(k *Case) (line, impl string) {
 		buf := make([]byte, 24)
 		rand.Read(buf)
 		nonce = b64(buf)
+	case "near-pad", "near-pad2", "near-case", "near-trunc", "near-space", "near-lead":
+		// a nonce that IS in the table, respelled: the table is keyed by the exact string, so
+		// none of these may be accepted (and the live nonce must stay untouched)
+		live := e.Nonce(provs[0].Name)
+		switch j.Nonce {
+		case "near-pad":
+			nonce = live + "="
+		case "near-pad2":
+			nonce = live + "=="
+		case "near-case":
+			nonce = flipCase("https://x/"+live, "case-id")[len("https://x/"):]
+		case "near-trunc":
+			nonce = live[:len(live)-1]
+		case "near-space":
+			nonce = live + " "
+		default:
+			nonce = "=" + live
+		}
 	}
 	if j.Nonce != "absent" {
 		prot["nonce"] = nonce
